@@ -313,6 +313,9 @@ type NameCase struct {
 	Kind   string          `json:"kind"` // key | digest | identity
 	Key    kit.IpnsKeySpec `json:"key"`
 	Digest []byte          `json:"digest,omitempty"` // 32 bytes
+	// Off: the routing key is parsed from the window [Off, Off+len) of a larger caller-owned
+	// scratch buffer, which the caller reuses afterwards.
+	Off int `json:"off,omitempty"`
 }
 
 func genName(t *rapid.T) NameCase {
@@ -327,7 +330,18 @@ func genName(t *rapid.T) NameCase {
 		c.Key = kit.IpnsKeySpec{Type: "none"}
 		c.Digest = rapid.SliceOfN(rapid.Byte(), 32, 32).Draw(t, "digest")
 	}
+	c.Off = rapid.SampledFrom([]int{0, 0, 1, 6, 7, 16, 64}).Draw(t, "off")
 	return c
+}
+
+// safeString prints a name that may have become invalid (String panics on those).
+func safeString(n ipns.Name) (s string) {
+	defer func() {
+		if r := recover(); r != nil {
+			s = fmt.Sprintf("<invalid name, multihash %x>", string(n.Peer()))
+		}
+	}()
+	return n.String()
 }
 
 func peerOf(c NameCase) (peer.ID, error) {
@@ -415,6 +429,59 @@ func runName(c NameCase) kit.Result {
 	if err != nil || !n5.Equal(n) {
 		return kit.Fail("NameFromRoutingKey(n.RoutingKey()) = %v, %v", n5, err)
 	}
+	// A Name is a value: the slice handed to NameFromRoutingKey / UnmarshalJSON and the slice
+	// returned by RoutingKey stay the caller's. Whatever the caller then does with its own
+	// memory (reuse as a scratch buffer for the next key, wipe) must not change the name.
+	want := append([]byte(ipns.NamespacePrefix), []byte(pid)...)
+	still := func(what string, got ipns.Name) error {
+		if !got.Equal(n) || got != n || got.Peer() != pid || got.String() != s || !got.Cid().Equals(c1) || !bytes.Equal(got.RoutingKey(), want) {
+			return fmt.Errorf("%s: the name changed from %s to %s (Peer %q)", what, s, safeString(got), got.Peer())
+		}
+		return nil
+	}
+	if c.Off < 0 || c.Off > 64 {
+		return kit.Fail("harness: off out of range")
+	}
+	scratch := make([]byte, c.Off+len(want)+c.Off%7) // the key is a window of a larger caller buffer
+	key := scratch[c.Off : c.Off+len(want)]
+	copy(key, want)
+	n8, err := ipns.NameFromRoutingKey(key)
+	if err != nil {
+		return kit.Fail("NameFromRoutingKey(window of a scratch buffer): %v", err)
+	}
+	if err := still("NameFromRoutingKey(buf)", n8); err != nil {
+		return kit.Fail("%v", err)
+	}
+	sibling := append([]byte(nil), want...) // routing key of another valid name of the same shape
+	sibling[len(sibling)-1] ^= 0xff
+	for _, reuse := range []struct {
+		how string
+		do  func()
+	}{
+		{"decoding the next key into buf", func() { copy(key, sibling) }},
+		{"zeroing buf", func() { clear(scratch) }},
+		{"filling buf with 0xff", func() {
+			for i := range scratch {
+				scratch[i] = 0xff
+			}
+		}},
+	} {
+		reuse.do()
+		if err := still("NameFromRoutingKey(buf), then "+reuse.how, n8); err != nil {
+			return kit.Fail("%v", err)
+		}
+	}
+	rk2 := n.RoutingKey()
+	for i := range rk2 {
+		rk2[i] ^= 0xff
+	}
+	rk[len(rk)-1] ^= 0xff
+	if err := still("overwriting the slices RoutingKey() returned", n); err != nil {
+		return kit.Fail("%v", err)
+	}
+	if err := still("overwriting the slices RoutingKey() returned (name parsed from one of them)", n5); err != nil {
+		return kit.Fail("%v", err)
+	}
 	// JSON form (documented: marshals as String, unmarshals via NameFromString)
 	js, err := json.Marshal(n)
 	if err != nil {
@@ -423,6 +490,14 @@ func runName(c NameCase) kit.Result {
 	var n6 ipns.Name
 	if err := json.Unmarshal(js, &n6); err != nil || !n6.Equal(n) {
 		return kit.Fail("JSON round trip of name %s: %v", s, err)
+	}
+	var n9 ipns.Name
+	if err := n9.UnmarshalJSON(js); err != nil {
+		return kit.Fail("UnmarshalJSON(%s): %v", js, err)
+	}
+	clear(js)
+	if err := still("UnmarshalJSON(buf), then zeroing buf", n9); err != nil {
+		return kit.Fail("%v", err)
 	}
 	// path form
 	ap := n.AsPath()
@@ -451,6 +526,111 @@ var nameSpec = kit.Spec[NameCase]{
 }
 
 func TestPropName(t *testing.T) { kit.All(t, nameSpec) }
+
+// ---------------------------------------------------------------------------
+// sub-check "scratch": several routing keys decoded one after the other through one
+// caller-owned scratch buffer (the way a reader decodes keys from a stream or a datastore
+// iterator); the names obtained are kept in a slice and as map keys.
+
+type ScratchCase struct {
+	Names []NameCase `json:"names"`
+	Off   int        `json:"off,omitempty"`
+	Wipe  bool       `json:"wipe,omitempty"` // zero the scratch buffer at the end
+}
+
+func genScratch(t *rapid.T) ScratchCase {
+	c := ScratchCase{
+		Off:  rapid.SampledFrom([]int{0, 0, 1, 6, 16}).Draw(t, "off"),
+		Wipe: rapid.Bool().Draw(t, "wipe"),
+	}
+	n := rapid.IntRange(2, kit.Scale(5, 8)).Draw(t, "n")
+	for i := 0; i < n; i++ {
+		if i > 0 && rapid.IntRange(0, 4).Draw(t, "again") == 0 {
+			c.Names = append(c.Names, c.Names[rapid.IntRange(0, i-1).Draw(t, "which")])
+			continue
+		}
+		nc := genName(t)
+		nc.Off = 0
+		c.Names = append(c.Names, nc)
+	}
+	return c
+}
+
+func runScratch(c ScratchCase) kit.Result {
+	if len(c.Names) == 0 || len(c.Names) > 64 || c.Off < 0 || c.Off > 64 {
+		return kit.Fail("harness: bad case")
+	}
+	pids := make([]peer.ID, len(c.Names))
+	distinct := map[peer.ID]bool{}
+	lens := map[int]bool{}
+	maxLen := 0
+	for i, nc := range c.Names {
+		pid, err := peerOf(nc)
+		if err != nil {
+			return kit.Fail("harness: %v", err)
+		}
+		pids[i] = pid
+		distinct[pid] = true
+		lens[len(pid)] = true
+		maxLen = max(maxLen, len(pid))
+	}
+	scratch := make([]byte, c.Off+len(ipns.NamespacePrefix)+maxLen)
+	got := make([]ipns.Name, len(pids))
+	seen := map[ipns.Name][]int{}
+	for i, pid := range pids {
+		rk := ipns.NameFromPeer(pid).RoutingKey()
+		key := scratch[c.Off : c.Off+len(rk)]
+		copy(key, rk)
+		n, err := ipns.NameFromRoutingKey(key)
+		if err != nil {
+			return kit.Fail("key %d: NameFromRoutingKey: %v", i, err)
+		}
+		if !n.Equal(ipns.NameFromPeer(pid)) {
+			return kit.Fail("key %d: NameFromRoutingKey(n.RoutingKey()) != n", i)
+		}
+		got[i] = n
+		seen[n] = append(seen[n], i)
+	}
+	if c.Wipe {
+		clear(scratch)
+	}
+	for i, pid := range pids {
+		want := ipns.NameFromPeer(pid)
+		if !got[i].Equal(want) || got[i] != want || got[i].Peer() != pid {
+			return kit.Fail("name %d of %d decoded through one scratch buffer changed after the buffer was reused: want %s, have %s", i, len(pids), want, safeString(got[i]))
+		}
+		if got[i].String() != want.String() || !bytes.Equal(got[i].RoutingKey(), want.RoutingKey()) {
+			return kit.Fail("name %d decoded through a scratch buffer prints %s, want %s", i, safeString(got[i]), want)
+		}
+		found := false
+		for _, j := range seen[want] {
+			found = found || j == i
+		}
+		if !found {
+			return kit.Fail("name %d (%s) decoded through a scratch buffer is not found under its own value in a map keyed by Name (entries %v)", i, want, seen[want])
+		}
+	}
+	if len(seen) != len(distinct) {
+		return kit.Fail("%d distinct names decoded through a scratch buffer give %d map keys", len(distinct), len(seen))
+	}
+	cls := []string{fmt.Sprintf("distinct:%d", len(distinct)), fmt.Sprintf("wipe:%v", c.Wipe)}
+	if len(lens) > 1 {
+		cls = append(cls, "mixed-lengths")
+	}
+	if len(distinct) < len(pids) {
+		cls = append(cls, "repeated-name")
+	}
+	return kit.Result{NonTrivial: len(distinct) >= 2, Classes: cls}
+}
+
+var scratchSpec = kit.Spec[ScratchCase]{
+	Prop: "C28", Name: "scratch",
+	Rule:  "2..5 (thorough 8) names as in [name], some repeated; their routing keys are copied one after the other into the same window of one caller-owned scratch buffer and parsed with NameFromRoutingKey, the buffer is optionally wiped; afterwards every parsed name must still equal NameFromPeer of its peer ID (Equal, ==, Peer, String, RoutingKey) and be found under that value in a map keyed by Name, with one map key per distinct name; non-trivial = at least two distinct names",
+	Quick: 1500, Thorough: 10000,
+	Gen: genScratch, Run: runScratch,
+}
+
+func TestPropScratch(t *testing.T) { kit.All(t, scratchSpec) }
 
 // the fuzz seeds also run in the quick tier, as an enumerated sub-check
 type SeedCase struct {
